@@ -18,9 +18,9 @@ var c02Tampers = []string{
 	// shared catalogue (see tamperSigned)
 	"reveal-other-key", "reveal-malformed", "alg-not-allowed", "alg-missing", "alg-empty", "extra-header", "bad-signature",
 	"signed-by-other-key", "payload-changed-not-resigned", "key-missing-member", "jws-two-segments", "jws-bad-base64",
-	"payload-not-json", "missing-signed-data", "missing-reveal",
+	"payload-not-json", "missing-signed-data", "missing-reveal", "reveal-respelled", "reveal-shortened", "header-duplicate-member",
 	// C02-specific
-	"field-reencoded-not-resigned", "key-substituted-not-resigned", "key-substituted-resigned-reveal-kept", "alg-other-allowed-not-resigned",
+	"field-reencoded-not-resigned", "key-substituted-not-resigned", "key-substituted-resigned-reveal-kept", "key-substituted-resigned-reveal-shortened", "alg-other-allowed-not-resigned",
 	"header-kid-added-not-resigned", "signature-truncated", "signature-padded", "signature-empty", "segment-base64-padded", "four-segments",
 	"signature-of-other-request", "delta-substituted", "suffix-signed-mismatch",
 }
@@ -84,6 +84,14 @@ func c02Tamper(t *rapid.T, b *opBuild, class string, p protocol.Protocol, donor 
 		b.sign()
 		b.Reveal = reveal
 		b.assemble()
+	case "key-substituted-resigned-reveal-shortened":
+		// everything consistently the attacker's own, with a reveal value that is a well-formed multihash of a prefix (possibly
+		// empty) of the attacker key's digest
+		o := otherKey(t, b.SignKey)
+		b.Header["alg"] = o.Type.Alg()
+		resignWithKey(b, o)
+		d := refDigest(b.Alg, []byte(refJCS(o.JWKValue())))
+		b.Req["revealValue"] = b64(refMultihashBytes(b.Alg, d[:rapid.SampledFrom([]int{0, 0, 1, 16, len(d) - 1}).Draw(t, "shortLen")]))
 	case "alg-other-allowed-not-resigned":
 		h, pl, s, _ := splitCompact(b.JWS)
 		_ = h
